@@ -195,6 +195,10 @@ func fnHRandField(ctx *cmdContext, args map[string]any) (output respValue, err e
 	if options != nil {
 		count, hasCount := options.mustGet("count").(int64)
 		if hasCount {
+			if count < -maxRandomCount || count > maxRandomCount {
+				output.data = respErrorString("ERR value is out of range")
+				return
+			}
 			c32 = int(count)
 			c = &c32
 		}
